@@ -1,7 +1,8 @@
 \* C05 typed chains: ALL sequences (not only shortest paths: the history is part of the state)
 \* of <= 3 operations out of {with_mdl, with_name, with_props, map_props, with_completion x2,
 \* start} after New (both verdicts, completions rec1 / dfltl (level only) / dfltp (panic level
-\* only), clock forwards / backwards), each followed by every terminal operation; replayed on
+\* only), clock forwards / backwards), each followed by every terminal operation (complete_with also with the completion forms
+\* recRef / recSS / fromE / empty, with_completion with rec2 / fromE); replayed on
 \* statically typed guards.
 SPECIFICATION Spec
 CONSTANTS
@@ -9,8 +10,8 @@ CONSTANTS
     Names = {"n1"}
     PropVals = {1}
     NewComps = {"rec1", "dfltl", "dfltp"}
-    WithComps = {"rec2", "dflt"}
-    CwComps = {"rec3", "dfltL", "ok", "err"}
+    WithComps = {"rec2", "fromE"}
+    CwComps = {"rec3", "dfltL", "ok", "err", "recRef", "recSS", "fromE", "empty"}
     Scripts <- MC_ScriptsTyped
     Forms = {"none"}
     Frames = {"in"}
